@@ -771,10 +771,12 @@ func (v *FnVC) lookup(x *ssa.Lookup) {
 	if x.CommaOk {
 		okn := v.define("ok", "Bool", in)
 		vn := v.define("mv", v.sortOf(mt.Elem()), val)
+		v.assume(v.rangeOf(vn, mt.Elem()))
 		v.tuples[x] = []Term{{vn, mt.Elem()}, {okn, types.Typ[types.Bool]}}
 		return
 	}
 	v.setVal(x, val)
+	v.assume(v.rangeOf(v.vals[x].S, mt.Elem()))
 }
 
 // ---------- return / panic
